@@ -227,24 +227,25 @@ def _guard_hmc(fn, *a, **k):
         raise
 
 
-def _budgeted(n_steps, fn):
+def _budgeted(h, n_steps, fn):
     """Run a stepping operation under an evaluation budget (50k + 5k per requested
-    step); exceeding it raises ctx.Runaway instead of hanging the harness."""
+    step); exceeding it raises ctx.Runaway instead of hanging the harness.  The budget
+    belongs to the sampler's own target (samplers may run interleaved in kernel tasks)."""
     c = rctx.get()
-    c.eval_budget = 50_000 + 5_000 * int(n_steps)
+    c.eval_budgets[h.target.tag] = 50_000 + 5_000 * int(n_steps)
     try:
         return fn()
     finally:
-        c.eval_budget = None
+        c.eval_budgets[h.target.tag] = None
 
 
 def op_step(h):
-    _budgeted(1, lambda: lib_call("take_step", _guard_hmc, h.chain.take_step))
+    _budgeted(h, 1, lambda: lib_call("take_step", _guard_hmc, h.chain.take_step))
 
 
 def op_advance(h, m):
     per = h.n_walkers if h.is_ensemble else 1
-    _budgeted(m * per, lambda: lib_call("advance(%d)" % m, _guard_hmc, h.chain.advance, m))
+    _budgeted(h, m * per, lambda: lib_call("advance(%d)" % m, _guard_hmc, h.chain.advance, m))
 
 
 def runaway_violation(h, op, exc):
